@@ -92,8 +92,14 @@ pub fn check_in_thread(case: &Case, obs: &mut Obs, prop: &str) -> CaseResult {
             let r1 = catch(|| encode_with(&enc, rec, case.script.clone()));
             let r2 = catch(|| encode_with(&enc_alt, rec, vec![]));
             let t1 = now_secs();
-            if dated && t0 != t1 && attempt < 4 {
-                continue; // the second changed while encoding: take another sample
+            if dated && t0 != t1 {
+                if attempt < 6 {
+                    continue; // the second changed while encoding: take another sample
+                }
+                // both encodes never fit into one second (huge texts through a byte-at-a-time sink on a busy machine):
+                // the dates cannot be judged, nothing else in this case is lost by letting it go
+                obs.class("dated-pattern-slower-than-a-second(skipped)");
+                return Ok(());
             }
             let (w, res) = match r1 {
                 Ok(x) => x,
